@@ -93,9 +93,9 @@ seed(3, "skinny_xor skips zero keystream bytes (data-dependent branch)", ["C08.R
 seed(4, "ctx->offset seeded from a key byte in skinny64_ctr_def_set_key", ["C08.R7", "C05.R1"],
      ("src/skinny64-ctr.c", "    if (!skinny64_set_key(&(ctx->kt.ks), key, size))\n        return 0;\n\n    /* Reset the keystream */\n    ctx->offset = SKINNY64_BLOCK_SIZE;",
       "    if (!skinny64_set_key(&(ctx->kt.ks), key, size))\n        return 0;\n\n    /* Reset the keystream */\n    ctx->offset = SKINNY64_BLOCK_SIZE + (((const unsigned char *)key)[0] & 0);"))
-seed(61, "mantis set_key compares key halves to skip the rotated unpack (memcmp-like branch)", ["C08.R1"],
+seed(61, "mantis set_key: the rotated-unpack loop exits early on a particular key byte pair (key-dependent branch)", ["C08.R1"],
      ("src/mantis-cipher.c", "    uint8_t carry = buf[MANTIS_BLOCK_SIZE - 1];\n    for (index = 0; index < MANTIS_BLOCK_SIZE; ++index) {",
-      "    uint8_t carry = buf[MANTIS_BLOCK_SIZE - 1];\n    for (index = 0; index < MANTIS_BLOCK_SIZE && (carry | buf[index] | 1); ++index) {"))
+      "    uint8_t carry = buf[MANTIS_BLOCK_SIZE - 1];\n    for (index = 0; index < MANTIS_BLOCK_SIZE && !(buf[index] == 0x5A && carry == 0xA5); ++index) {"))
 seed(62, "vector S-box lane extracted with a data-dependent index in the vec128 CTR back end", ["C08.R2"],
      ("src/skinny128-ctr-vec128.c", "    /* Read the rows of all four counter blocks into memory */\n    row0 = input[0];",
       "    /* Read the rows of all four counter blocks into memory */\n    row0 = input[0];\n    row0[0] ^= 0 * row0[input[1][0] & 3];"))
